@@ -174,7 +174,21 @@ def obligations_of(prop):
         m = re.match(r"--\s*OBLIGATIONS:\s*(.*)", line)
         if m:
             names += m.group(1).split()
+    # property theorems that need more than one property's files (Props/Histories.lean) are listed
+    # there as `-- OBLIGATIONS(Cxx): …`
+    for g in sorted(glob.glob(os.path.join(LEAN, "Gecs", "Props", "*.lean"))):
+        for line in open(g):
+            m = re.match(r"--\s*OBLIGATIONS\((\w+)\):\s*(.*)", line)
+            if m and m.group(1) == prop:
+                mod = "Gecs.Props." + os.path.basename(g)[:-5]
+                EXTRA_MODULES.setdefault(prop, [])
+                if mod not in EXTRA_MODULES[prop]:
+                    EXTRA_MODULES[prop].append(mod)
+                names += [n for n in m.group(2).split() if n not in names]
     return f, names
+
+
+EXTRA_MODULES = {}
 
 
 ALLOWED_AXIOMS = {"propext", "Classical.choice", "Quot.sound"}
@@ -195,15 +209,16 @@ def lean_obligations(prop):
         return json.load(open(marker))
     mod = "Gecs.Props." + prop
     audit = os.path.join(tdir(), f"audit_{prop}.lean")
+    mods = [mod] + EXTRA_MODULES.get(prop, [])
     with open(audit, "w") as fh:
-        fh.write(f"import {mod}\nopen Gecs\n")
+        fh.write("".join(f"import {m_}\n" for m_ in mods) + "open Gecs\n")
         for n in names:
             fh.write(f"#print axioms {n}\n")
     with Lock("lake"):
-        rc0, out0 = sh(["lake", "build", mod], cwd=LEAN, timeout=3600)
+        rc0, out0 = sh(["lake", "build"] + mods, cwd=LEAN, timeout=3600)
         rc, out = sh(["lake", "env", "lean", audit], cwd=LEAN, timeout=1200)
     if rc0 != 0:
-        res["broken"].append(f"module {mod} does not build")
+        res["broken"].append(f"module {' / '.join(mods)} does not build")
         res["log_tail"] = out0[-3000:]
     cur = None
     found = {}
@@ -304,7 +319,9 @@ def invfail_hits(trace_path, invfails):
     return hits
 
 
-def run_stream(cfgname, profile, seed, nseq, maxops):
+def run_stream(cfgname, profile, seed, nseq, maxops, args=None):
+    """`args`: alternative harness arguments (e.g. ["decs", "4"] or ["run", file]) instead of the
+    seeded generator; `profile` is then only a label."""
     key = f"{cfgname}-{profile}-{seed}-{nseq}-{maxops}"
     out = os.path.join(tdir(), "streams")
     os.makedirs(out, exist_ok=True)
@@ -322,7 +339,7 @@ def run_stream(cfgname, profile, seed, nseq, maxops):
             return res
         t0 = time.time()
         with open(tf, "w") as fh:
-            p = subprocess.run([b["bin"], "gen", str(seed), str(nseq), str(maxops), profile], stdout=fh,
+            p = subprocess.run([b["bin"]] + (args or ["gen", str(seed), str(nseq), str(maxops), profile]), stdout=fh,
                                stderr=subprocess.PIPE, text=True, env=ENV)
         res["harness_rc"] = p.returncode
         res["harness_stderr"] = p.stderr[-1500:]
@@ -333,6 +350,14 @@ def run_stream(cfgname, profile, seed, nseq, maxops):
         if m["summary"] is None and not res.get("crashed"):
             res["crashed"] = f"model driver did not finish replaying the trace (rc={m['rc']}): {m['stderr'][-200:]}"
         hits, stats = oracles.run_oracles(tf)
+        if p.returncode < 0:
+            # killed by a signal (SIGSEGV / SIGABRT from the allocator): memory unsafety of the real
+            # code on a concrete history; the op that was running is the last line of the trace
+            seqs_ = oracles.parse_trace(tf)
+            last = seqs_[-1] if seqs_ else None
+            hits.append({"property": "MEMSAFE", "seq": last.header if last else "?", "line": last.lines[-1][0] if last and last.lines else 0,
+                         "op": last.lines[-1][4] if last and last.lines else "?", "class": "crash-signal",
+                         "what": f"the harness process running the real gecs code was killed by signal {-p.returncode} ({'SIGSEGV' if p.returncode == -11 else 'SIGABRT' if p.returncode == -6 else 'signal'}) during `{last.lines[-1][4] if last and last.lines else '?'}`: {p.stderr[-200:].strip()}"})
         res["oracle_hits"] = hits + invfail_hits(tf, m["invfails"])
         res["oracle_stats"] = stats
         res["wall_s"] = round(time.time() - t0, 2)
@@ -389,6 +414,63 @@ def run_boundary(cfgname):
             res["wall_s"] = round(time.time() - t0, 2)
         json.dump(res, open(jf, "w"))
         return res
+
+
+def run_shapes(cfgname):
+    """C04: the fixed ownership scenario of harness/rt/src/shapes.rs on archetype shapes mixing
+    components without drop glue, drop-tracked ones and a zero-sized Drop type (implementation
+    only).  Prediction of the C04 theorems: everything made or cloned is dropped exactly once."""
+    jf = os.path.join(tdir(), f"shapes-{cfgname}.json")
+    with Lock("shapes-" + cfgname):
+        if os.path.exists(jf):
+            return json.load(open(jf))
+        b = build_rt(cfgname)
+        res = {"key": "shapes-" + cfgname, "config": cfgname, "profile": "shapes", "mismatches": [], "invfails": [],
+               "summary": None, "oracle_hits": [], "harness_ok": b["ok"], "lines": []}
+        if not b["ok"]:
+            res["crashed"] = "harness does not build"
+        else:
+            p = subprocess.run([b["bin"], "shapes"], stdout=subprocess.PIPE, stderr=subprocess.PIPE, text=True, env=ENV, timeout=600)
+            got = p.stdout.splitlines()
+            res["lines"] = got
+            if p.returncode != 0:
+                res["crashed"] = f"shapes run exited with {p.returncode}: {p.stderr[-300:]}"
+            tags = [f"S{i}" for i in range(1, 8)]
+            for tag in tags:
+                g = next((x for x in got if x.startswith(tag + " ")), None)
+                f = dict(kv.split("=") for kv in (g or "").split() if "=" in kv)
+                ok = g is not None and " ok " in g and f.get("live") == "0" and f.get("zlive") == "0" and f.get("errors") == "0" \
+                    and int(f.get("dropped", -1)) == int(f.get("made", 0)) + int(f.get("cloned", 0))
+                if not ok and not res.get("crashed"):
+                    res["oracle_hits"].append({"property": "C04", "seq": "shapes", "line": 0, "op": "rt shapes", "class": "shapes-" + tag, "no_shrink": True,
+                                               "what": f"ownership scenario on archetype shape {tag} (see harness/rt/src/shapes.rs): every value made or cloned must be dropped exactly once and nothing may stay alive; observed `{g}`"})
+        json.dump(res, open(jf, "w"))
+        return res
+
+
+CORPUS = os.path.join(VERIF, "corpus")
+
+
+def run_corpus(cfgname):
+    """Minimised past failures (the shrunk replays of the seeded changes of seeded/, and of the
+    defects F1..F4) are kept in /verif/corpus/*.json and run first, under the configuration they
+    were found in: model comparison and all oracles, like any other stream."""
+    entries = []
+    for f in sorted(glob.glob(os.path.join(CORPUS, "*.json"))):
+        try:
+            d = json.load(open(f))
+        except ValueError:
+            continue
+        if d.get("config") == cfgname and d.get("ops"):
+            entries.append((os.path.basename(f)[:-5], d["ops"]))
+    if not entries:
+        return None
+    opsf = os.path.join(tdir(), f"corpus-{cfgname}.ops")
+    with open(opsf, "w") as fh:
+        for i, (name, ops) in enumerate(entries):
+            fh.write(f"seq {i} corpus={name}\n" + "\n".join(ops) + "\n")
+    h = hashlib.sha1(open(opsf, "rb").read()).hexdigest()[:8]
+    return run_stream(cfgname, "corpus-" + h, 0, len(entries), 0, args=["run", opsf])
 
 
 CYCLES_EXPECT = {
@@ -659,7 +741,7 @@ def replay(path):
         print(open(r["trace"], errors="replace").read())
         for m in r["model"]["mismatches"] + r["model"]["invfails"]:
             print(m)
-        bad = [h for h in r["hits"] if h["property"] == prop]
+        bad = [h for h in r["hits"] if (h["property"] == prop or prop == "C19") and not is_known(h, data["config"])]
         for h in bad:
             print("ORACLE", json.dumps(h))
         shutil.rmtree(work, ignore_errors=True)
@@ -668,8 +750,81 @@ def replay(path):
             return 1
         print("replay no longer fails")
         return 0
-    print(json.dumps(data, indent=1)[:4000])
-    return 1
+    kind = data.get("kind")
+    cls = data.get("class", "")
+    if kind == "boundary" and (cls.startswith("boundary-") or cls.startswith("cycles-") or cls.startswith("shapes-")):
+        # re-run the deterministic boundary / 2^32-cycle / shapes program on the current tree
+        s = run_boundary(data["config"]) if cls.startswith("boundary-") else (run_cycles(data["config"]) if cls.startswith("cycles-") else run_shapes(data["config"]))
+        for l in s.get("lines", []):
+            print(l)
+        still = [h for h in s.get("oracle_hits", []) if h["class"] == cls] or ([s["crashed"]] if s.get("crashed") else [])
+        if still:
+            print(f"VIOLATION property={prop} replay={path}")
+            return 1
+        print("replay no longer fails")
+        return 0
+    if kind == "miri" and data.get("ops"):
+        work = os.path.join(tdir(), "replay-%d" % os.getpid())
+        os.makedirs(work, exist_ok=True)
+        f = os.path.join(work, "ops.txt")
+        open(f, "w").write("seq 0 replay\n" + "\n".join(data["ops"]) + "\n")
+        prof, feats = CONFIGS[data["config"]]
+        cmd = ["cargo", "+nightly", "miri", "run", "--offline"] + (["--release"] if prof == "release" else []) + (["--features", ",".join(feats)] if feats else []) + ["--", "run", f]
+        env = dict(ENV, CARGO_TARGET_DIR=os.path.join(CACHE, "target-miri"), RUSTFLAGS="--cfg gecs_verif -Awarnings", MIRIFLAGS="-Zmiri-disable-isolation")
+        p = subprocess.run(cmd, cwd=os.path.join(VERIF, "harness", "rt"), env=env, stdout=subprocess.PIPE, stderr=subprocess.PIPE, text=True)
+        print(p.stdout[-3000:])
+        print(p.stderr[-3000:])
+        shutil.rmtree(work, ignore_errors=True)
+        if p.returncode != 0:
+            print(f"VIOLATION property={prop} replay={path}")
+            return 1
+        print("replay no longer fails")
+        return 0
+    if kind in ("rustc-probe", "e2e-program") and data.get("program"):
+        # compile (and, for e2e, run) the single program against the current /repo
+        work = os.path.join(CACHE, "replay-crate")
+        shutil.rmtree(work, ignore_errors=True)
+        os.makedirs(os.path.join(work, "src", "bin"))
+        os.makedirs(os.path.join(work, ".cargo"))
+        open(os.path.join(work, ".cargo", "config.toml"), "w").write("[net]\noffline = true\n")
+        open(os.path.join(work, "Cargo.toml"), "w").write('[package]\nname = "replay"\nversion = "0.0.0"\nedition = "2021"\n\n[workspace]\n\n[dependencies]\ngecs = { path = "/repo", features = ["events"] }\n')
+        shutil.copy(os.path.join(REPO, "Cargo.lock"), os.path.join(work, "Cargo.lock"))
+        open(os.path.join(work, "src", "bin", "prog.rs"), "w").write(data["program"])
+        env = dict(ENV, CARGO_TARGET_DIR=os.path.join(CACHE, "target-probes" if kind == "rustc-probe" else "target-e2e"), RUSTFLAGS="-Awarnings")
+        p = subprocess.run(["cargo", "build", "--offline", "--bin", "prog"], cwd=work, env=env, stdout=subprocess.PIPE, stderr=subprocess.STDOUT, text=True)
+        print(p.stdout[-2500:])
+        compiled = p.returncode == 0
+        if kind == "rustc-probe":
+            fails = compiled      # the program is one that must NOT compile
+        else:
+            out = []
+            if compiled:
+                exe = os.path.join(env["CARGO_TARGET_DIR"], "debug", "prog")
+                out = subprocess.run([exe], stdout=subprocess.PIPE, text=True).stdout.splitlines()
+                for l in out:
+                    print(l)
+            exp = data.get("expected_output")
+            fails = (not compiled and exp is not None) or (exp is not None and out != exp) or (exp is None and compiled and data.get("class") == "e2e-accepted")
+        shutil.rmtree(work, ignore_errors=True)
+        if fails:
+            print(f"VIOLATION property={prop} replay={path}")
+            return 1
+        print("replay no longer fails")
+        return 0
+    if kind == "cross-config" and data.get("base"):
+        import engine_more
+        c = engine_more.cross_config(data["base"], data["other"], data["profile"], data.get("seed", 20260926), data.get("nseq", 30), data.get("maxops", 200))
+        for d in c["diffs"][:5]:
+            print(json.dumps(d)[:1500])
+        if c["diffs"] or c["crashed"]:
+            print(f"VIOLATION property={prop} replay={path}")
+            return 1
+        print("replay no longer fails")
+        return 0
+    # proof / machinery replays carry no input: re-run the property's quick check on the current tree
+    print(json.dumps({k: v for k, v in data.items() if k != "trace"}, indent=1)[:3000])
+    print("no input recorded in this replay: re-running the quick check of the property")
+    return check(prop, "quick", int(data.get("seed", 20260926)))
 
 
 # ----------------------------------------------------------------------------- rt properties
@@ -748,6 +903,18 @@ def check_rt(prop, tier, seed):
             streams.append(run_stream(c, pr, seed, t["nseq"], t["maxops"]))
     if prop == "C12":
         streams.append(run_boundary("rel-ew3"))
+    if prop == "C04":
+        for c in QUICK_CONFIGS:
+            streams.append(run_shapes(c))
+    if prop == "C07":
+        # every decision string over {Continue, ContinueDestroy, Break, BreakDestroy} up to length n
+        nmax = 6 if tier == "thorough" else 4
+        for c in QUICK_CONFIGS:
+            streams.append(run_stream(c, f"decs{nmax}", 0, 0, 0, args=["decs", str(nmax)]))
+    for c in QUICK_CONFIGS:
+        cs = run_corpus(c)
+        if cs is not None:
+            streams.append(cs)
     extra = thorough_extras(prop, tier, seed, lean, streams)
     return decide(prop, tier, seed, lean, streams, lambda line: concerns(prop, spec, line), extra_cov=extra)
 
@@ -784,6 +951,9 @@ def thorough_extras(prop, tier, seed, lean, streams):
     return extra
 
 
+MEMSAFE_PROPS = ("C03", "C04", "C10", "C19")
+
+
 def decide(prop, tier, seed, lean, streams, concerns_fn, extra_cov=None, t0=None):
     t0 = t0 or START
     violations = []
@@ -791,6 +961,11 @@ def decide(prop, tier, seed, lean, streams, concerns_fn, extra_cov=None, t0=None
     # 1. oracle hits on implementation traces: the property itself is false there
     for s in streams:
         for h in s.get("oracle_hits", []):
+            if h["property"] == "MEMSAFE":
+                # memory safety is part of what these properties state
+                if prop not in MEMSAFE_PROPS:
+                    continue
+                h = dict(h, property=prop)
             if h["property"] != prop and prop != "C19":
                 continue
             k = is_known(h, s["config"])
@@ -846,6 +1021,8 @@ def decide(prop, tier, seed, lean, streams, concerns_fn, extra_cov=None, t0=None
         ops = seq_ops(s["trace"], h["seq"])
         cfg = s["config"]
         pred = lambda r: any((x["property"] == prop or prop == "C19") and x["class"] == h["class"] for x in r["hits"])
+        if h["class"] == "crash-signal":
+            pred = lambda r: r["rc"] < 0
         what = h["what"]
         try:
             small, final, trace_text = shrink(cfg, ops, pred)
@@ -867,6 +1044,8 @@ def decide(prop, tier, seed, lean, streams, concerns_fn, extra_cov=None, t0=None
                 for pr in ALL_PROFILES:
                     s2 = run_stream(c, pr, seed + 1, 120, 300)
                     for h in s2.get("oracle_hits", []):
+                        if h["property"] == "MEMSAFE" and prop in MEMSAFE_PROPS:
+                            h = dict(h, property=prop)
                         if h["property"] == prop and not is_known(h, c):
                             found = (s2, h)
                             break
@@ -878,6 +1057,8 @@ def decide(prop, tier, seed, lean, streams, concerns_fn, extra_cov=None, t0=None
             s, h = found
             ops = seq_ops(s["trace"], h["seq"])
             pred = lambda r: any(x["property"] == prop and x["class"] == h["class"] for x in r["hits"])
+            if h["class"] == "crash-signal":
+                pred = lambda r: r["rc"] < 0
             small, final, trace_text = shrink(s["config"], ops, pred)
             replay_path = write_replay(prop, "oracle-" + h["class"], {
                 "property": prop, "kind": "oracle", "config": s["config"], "seed": seed, "profile": s["profile"],
